@@ -28,7 +28,7 @@ theorem vsub_ext {m t : Tbl} (he : Ext m t) (hw : WF m) {sub : List (Nat × Int)
   | some g => exact den_ext he hw g a (hs i g hl)
 
 /-- value of a reference in terms of its regular (positive) version -/
-theorem den_natAbs (t : Tbl) (hw : WF t) (f : Int) (hm : t.Mem f) (a : Asg) :
+theorem den_abs_sign (t : Tbl) (hw : WF t) (f : Int) (hm : t.Mem f) (a : Asg) :
     den t f a = (decide (f < 0) ^^ den t (f.natAbs : Int) a) := by
   have h0 := mem_ne_zero hw hm
   rcases Int.natAbs_eq f with h | h
@@ -42,11 +42,11 @@ theorem den_natAbs (t : Tbl) (hw : WF t) (f : Int) (hm : t.Mem f) (a : Asg) :
     rw [den_neg t hw _ a hm']
     simp [hneg]
 
-theorem mem_natAbs {t : Tbl} {f : Int} (hm : t.Mem f) : t.Mem (f.natAbs : Int) := by
+theorem mem_abs {t : Tbl} {f : Int} (hm : t.Mem f) : t.Mem (f.natAbs : Int) := by
   unfold Tbl.Mem at *
   simpa using hm
 
-theorem levelOf_natAbs (t : Tbl) (f : Int) : t.levelOf (f.natAbs : Int) = t.levelOf f := by
+theorem levelOf_abs (t : Tbl) (f : Int) : t.levelOf (f.natAbs : Int) = t.levelOf f := by
   unfold Tbl.levelOf; simp
 
 /-- what `_vector_compose` guarantees about the reference it returns for `f` -/
@@ -92,7 +92,7 @@ theorem VPost.flip {sub : List (Nat × Int)} {t : Tbl} (hw : WF t) {f r : Int} (
     (h : VPost sub t (f.natAbs : Int) r) : VPost sub t f (if f < 0 then -r else r) := by
   refine ⟨hf, mem_flip f h.mr, ?_⟩
   intro a
-  rw [den_flip t hw r f a h.mr, h.den a, den_natAbs t hw f hf]
+  rw [den_flip t hw r f a h.mr, h.den a, den_abs_sign t hw f hf]
 
 /-- `level_sub.get(i)` or the variable's own node: a reference denoting the value the operand
 sees at level `i` -/
@@ -185,7 +185,7 @@ theorem vectorComposeF_spec (sub : List (Nat × Int)) :
         have hn4 : m4.tbl.node? ((f.natAbs : Int)).natAbs = some n := by
           simpa using hs4.ext.nodes _ _ hn
         have hpos : VPost sub m4.tbl (f.natAbs : Int) r := by
-          refine ⟨mem_natAbs (hs4.ext.mem hf), hp4.mem, ?_⟩
+          refine ⟨mem_abs (hs4.ext.mem hf), hp4.mem, ?_⟩
           intro a
           rw [hp4.den a, den_node m4.tbl hW4 (f.natAbs : Int) n _ (by simpa using h1) hn4,
             ← den_ext hp4.ext hW3 q a hp2_3.mr, ← den_ext hp4.ext hW3 p a hp1_3.mr,
